@@ -7222,47 +7222,47 @@ let rec store_tree fuel id t0 =
          | PInt _ -> set_cell_val id (PInt z0)
          | _ ->
            crash
-             ('c'::('e'::('l'::('l'::(' '::('p'::('a'::('y'::('l'::('o'::('a'::('d'::(' '::('d'::('i'::('s'::('a'::('g'::('r'::('e'::('e'::('s'::(' '::('w'::('i'::('t'::('h'::(' '::('i'::('t'::('s'::(' '::('t'::('y'::('p'::('e'::[])))))))))))))))))))))))))))))))))))))
+             ('l'::('o'::('a'::('d'::('e'::('d'::(' '::('v'::('a'::('l'::('u'::('e'::(' '::('o'::('f'::(' '::('a'::('n'::('o'::('t'::('h'::('e'::('r'::(' '::('c'::('l'::('a'::('s'::('s'::(' '::('t'::('h'::('a'::('n'::(' '::('t'::('h'::('e'::(' '::('o'::('b'::('j'::('e'::('c'::('t'::(' '::('r'::('e'::('a'::('d'::(' '::('i'::('n'::('t'::('o'::[]))))))))))))))))))))))))))))))))))))))))))))))))))))))))
       | VReal r ->
         (match cl.c_val with
          | PReal _ -> set_cell_val id (PReal r)
          | _ ->
            crash
-             ('c'::('e'::('l'::('l'::(' '::('p'::('a'::('y'::('l'::('o'::('a'::('d'::(' '::('d'::('i'::('s'::('a'::('g'::('r'::('e'::('e'::('s'::(' '::('w'::('i'::('t'::('h'::(' '::('i'::('t'::('s'::(' '::('t'::('y'::('p'::('e'::[])))))))))))))))))))))))))))))))))))))
+             ('l'::('o'::('a'::('d'::('e'::('d'::(' '::('v'::('a'::('l'::('u'::('e'::(' '::('o'::('f'::(' '::('a'::('n'::('o'::('t'::('h'::('e'::('r'::(' '::('c'::('l'::('a'::('s'::('s'::(' '::('t'::('h'::('a'::('n'::(' '::('t'::('h'::('e'::(' '::('o'::('b'::('j'::('e'::('c'::('t'::(' '::('r'::('e'::('a'::('d'::(' '::('i'::('n'::('t'::('o'::[]))))))))))))))))))))))))))))))))))))))))))))))))))))))))
       | VBool b ->
         (match cl.c_val with
          | PBool _ -> set_cell_val id (PBool b)
          | _ ->
            crash
-             ('c'::('e'::('l'::('l'::(' '::('p'::('a'::('y'::('l'::('o'::('a'::('d'::(' '::('d'::('i'::('s'::('a'::('g'::('r'::('e'::('e'::('s'::(' '::('w'::('i'::('t'::('h'::(' '::('i'::('t'::('s'::(' '::('t'::('y'::('p'::('e'::[])))))))))))))))))))))))))))))))))))))
+             ('l'::('o'::('a'::('d'::('e'::('d'::(' '::('v'::('a'::('l'::('u'::('e'::(' '::('o'::('f'::(' '::('a'::('n'::('o'::('t'::('h'::('e'::('r'::(' '::('c'::('l'::('a'::('s'::('s'::(' '::('t'::('h'::('a'::('n'::(' '::('t'::('h'::('e'::(' '::('o'::('b'::('j'::('e'::('c'::('t'::(' '::('r'::('e'::('a'::('d'::(' '::('i'::('n'::('t'::('o'::[]))))))))))))))))))))))))))))))))))))))))))))))))))))))))
       | VChar ch ->
         (match cl.c_val with
          | PChar _ -> set_cell_val id (PChar ch)
          | _ ->
            crash
-             ('c'::('e'::('l'::('l'::(' '::('p'::('a'::('y'::('l'::('o'::('a'::('d'::(' '::('d'::('i'::('s'::('a'::('g'::('r'::('e'::('e'::('s'::(' '::('w'::('i'::('t'::('h'::(' '::('i'::('t'::('s'::(' '::('t'::('y'::('p'::('e'::[])))))))))))))))))))))))))))))))))))))
+             ('l'::('o'::('a'::('d'::('e'::('d'::(' '::('v'::('a'::('l'::('u'::('e'::(' '::('o'::('f'::(' '::('a'::('n'::('o'::('t'::('h'::('e'::('r'::(' '::('c'::('l'::('a'::('s'::('s'::(' '::('t'::('h'::('a'::('n'::(' '::('t'::('h'::('e'::(' '::('o'::('b'::('j'::('e'::('c'::('t'::(' '::('r'::('e'::('a'::('d'::(' '::('i'::('n'::('t'::('o'::[]))))))))))))))))))))))))))))))))))))))))))))))))))))))))
       | VStr s ->
         (match cl.c_val with
          | PStr _ -> set_cell_val id (PStr s)
          | _ ->
            crash
-             ('c'::('e'::('l'::('l'::(' '::('p'::('a'::('y'::('l'::('o'::('a'::('d'::(' '::('d'::('i'::('s'::('a'::('g'::('r'::('e'::('e'::('s'::(' '::('w'::('i'::('t'::('h'::(' '::('i'::('t'::('s'::(' '::('t'::('y'::('p'::('e'::[])))))))))))))))))))))))))))))))))))))
+             ('l'::('o'::('a'::('d'::('e'::('d'::(' '::('v'::('a'::('l'::('u'::('e'::(' '::('o'::('f'::(' '::('a'::('n'::('o'::('t'::('h'::('e'::('r'::(' '::('c'::('l'::('a'::('s'::('s'::(' '::('t'::('h'::('a'::('n'::(' '::('t'::('h'::('e'::(' '::('o'::('b'::('j'::('e'::('c'::('t'::(' '::('r'::('e'::('a'::('d'::(' '::('i'::('n'::('t'::('o'::[]))))))))))))))))))))))))))))))))))))))))))))))))))))))))
       | VDate (d, m0, y) ->
         (match cl.c_val with
          | PDate (_, _, _) -> set_cell_val id (PDate (d, m0, y))
          | _ ->
            crash
-             ('c'::('e'::('l'::('l'::(' '::('p'::('a'::('y'::('l'::('o'::('a'::('d'::(' '::('d'::('i'::('s'::('a'::('g'::('r'::('e'::('e'::('s'::(' '::('w'::('i'::('t'::('h'::(' '::('i'::('t'::('s'::(' '::('t'::('y'::('p'::('e'::[])))))))))))))))))))))))))))))))))))))
+             ('l'::('o'::('a'::('d'::('e'::('d'::(' '::('v'::('a'::('l'::('u'::('e'::(' '::('o'::('f'::(' '::('a'::('n'::('o'::('t'::('h'::('e'::('r'::(' '::('c'::('l'::('a'::('s'::('s'::(' '::('t'::('h'::('a'::('n'::(' '::('t'::('h'::('e'::(' '::('o'::('b'::('j'::('e'::('c'::('t'::(' '::('r'::('e'::('a'::('d'::(' '::('i'::('n'::('t'::('o'::[]))))))))))))))))))))))))))))))))))))))))))))))))))))))))
       | VEnum (tn, _, i) ->
         (match cl.c_val with
          | PEnum (tn0, _) ->
            if str_eqb tn tn0
            then set_cell_val id (PEnum (tn0, i))
            else crash
-                  ('c'::('e'::('l'::('l'::(' '::('p'::('a'::('y'::('l'::('o'::('a'::('d'::(' '::('d'::('i'::('s'::('a'::('g'::('r'::('e'::('e'::('s'::(' '::('w'::('i'::('t'::('h'::(' '::('i'::('t'::('s'::(' '::('t'::('y'::('p'::('e'::[]))))))))))))))))))))))))))))))))))))
+                  ('l'::('o'::('a'::('d'::('e'::('d'::(' '::('v'::('a'::('l'::('u'::('e'::(' '::('o'::('f'::(' '::('a'::('n'::('o'::('t'::('h'::('e'::('r'::(' '::('c'::('l'::('a'::('s'::('s'::(' '::('t'::('h'::('a'::('n'::(' '::('t'::('h'::('e'::(' '::('o'::('b'::('j'::('e'::('c'::('t'::(' '::('r'::('e'::('a'::('d'::(' '::('i'::('n'::('t'::('o'::[])))))))))))))))))))))))))))))))))))))))))))))))))))))))
          | _ ->
            crash
-             ('c'::('e'::('l'::('l'::(' '::('p'::('a'::('y'::('l'::('o'::('a'::('d'::(' '::('d'::('i'::('s'::('a'::('g'::('r'::('e'::('e'::('s'::(' '::('w'::('i'::('t'::('h'::(' '::('i'::('t'::('s'::(' '::('t'::('y'::('p'::('e'::[])))))))))))))))))))))))))))))))))))))
+             ('l'::('o'::('a'::('d'::('e'::('d'::(' '::('v'::('a'::('l'::('u'::('e'::(' '::('o'::('f'::(' '::('a'::('n'::('o'::('t'::('h'::('e'::('r'::(' '::('c'::('l'::('a'::('s'::('s'::(' '::('t'::('h'::('a'::('n'::(' '::('t'::('h'::('e'::(' '::('o'::('b'::('j'::('e'::('c'::('t'::(' '::('r'::('e'::('a'::('d'::(' '::('i'::('n'::('t'::('o'::[]))))))))))))))))))))))))))))))))))))))))))))))))))))))))
       | VPtr -> ret ()
       | VRec (_, fs, ars) ->
         (match cl.c_val with
@@ -7276,7 +7276,7 @@ let rec store_tree fuel id t0 =
                  cx.x_arrs ars))
          | _ ->
            crash
-             ('c'::('e'::('l'::('l'::(' '::('p'::('a'::('y'::('l'::('o'::('a'::('d'::(' '::('d'::('i'::('s'::('a'::('g'::('r'::('e'::('e'::('s'::(' '::('w'::('i'::('t'::('h'::(' '::('i'::('t'::('s'::(' '::('t'::('y'::('p'::('e'::[]))))))))))))))))))))))))))))))))))))))
+             ('l'::('o'::('a'::('d'::('e'::('d'::(' '::('v'::('a'::('l'::('u'::('e'::(' '::('o'::('f'::(' '::('a'::('n'::('o'::('t'::('h'::('e'::('r'::(' '::('c'::('l'::('a'::('s'::('s'::(' '::('t'::('h'::('a'::('n'::(' '::('t'::('h'::('e'::(' '::('o'::('b'::('j'::('e'::('c'::('t'::(' '::('r'::('e'::('a'::('d'::(' '::('i'::('n'::('t'::('o'::[])))))))))))))))))))))))))))))))))))))))))))))))))))))))))
 
 (** val budget_error : token -> n -> 'a1 m **)
 
